@@ -34,7 +34,7 @@ ASSUMPTIONS = [
     "documented errors = the exception classes of pyoak.legacy.error; an operation that raises anything else gives no verdict (counted)",
     "operations expected to be rejected that are accepted give no verdict (counted) and join the history",
 ]
-MUST_SEE = [
+MUST_SEE = ["runtime_only_child_field_transform", "rule_replaces_children_of_its_copy", "receiver_below_falsy_parent", 
     "rejected_ASTNodeDuplicateChildrenError", "rejected_ASTNodeParentCollisionError", "rejected_ASTNodeIDCollisionError", "rejected_ASTNodeRegistryCollisionError",
     "rejected_ASTNodeReplaceError", "rejected_ASTNodeReplaceWithError", "rejected_ASTTransformError", "failing_element_not_first", "frames_compared", "nested_failing_element", "two_collided_children",
 ]
@@ -56,7 +56,7 @@ def run_shard(ctx):
         LE.ASTNodeDuplicateChildrenError, LE.ASTNodeParentCollisionError, LE.ASTNodeRegistryCollisionError, LE.ASTNodeIDCollisionError,
         LE.ASTNodeReplaceError, LE.ASTNodeReplaceWithError, LE.ASTTransformError,
     )
-    U = legacy_universe()
+    U = legacy_universe(runtime_only=(ctx.shard % 2 == 0))
     P = U.P
     NO = O.build_origin(("no",))
     signal.signal(signal.SIGALRM, _alarm)
@@ -87,6 +87,14 @@ def run_shard(ctx):
             c = [n for n in F.handles if not n.detached and n.parent is None and id(n) not in R.stale]
             return rng.choice(c) if c else None
 
+        def below_falsy_parent():
+            """a fresh receiver whose parent is a node that is falsy (a block without statements)"""
+            recv = U.cls[f"{P}List"](items=(leaf(), leaf()), origin=NO)
+            blk = U.cls[f"{P}Block"](header=recv, origin=NO)
+            F.add(blk)
+            ctx.count("receiver_below_falsy_parent")
+            return recv
+
         def place(bad, k, where):
             """sequence of k fresh leaves with `bad` inserted first / middle / last"""
             seq = [leaf() for _ in range(k)]
@@ -100,8 +108,8 @@ def run_shard(ctx):
             kind = rng.choices(
                 ["dup_seq", "dup_two_fields", "parent_collision", "parent_collision_nested", "id_collision", "attach_collision", "attach_collision_nested",
                  "replace_keys", "replace_dup", "replace_parent_collision", "rw_has_parent", "rw_wrong_class", "rw_none_required", "rw_attach_fails",
-                 "transform_raises", "transform_removes_required", "transformer_raises", "rw_clone_of_attached", "parent_collision_two"],
-                [3, 3, 1, 1, 3, 3, 1, 3, 1, 1, 3, 3, 3, 1, 3, 3, 3, 2, 2],
+                 "transform_raises", "transform_removes_required", "transformer_raises", "rw_clone_of_attached", "parent_collision_two", "transform_runtime_children"],
+                [3, 3, 1, 1, 3, 3, 1, 3, 1, 1, 3, 3, 3, 1, 3, 3, 3, 2, 2, 2 if f"{P}Seq" in U.cls else 0],
             )[0]
             where = rng.choice(["first", "middle", "last"])
             if kind == "dup_seq":
@@ -183,6 +191,8 @@ def run_shard(ctx):
                 if not c:
                     return None
                 n = rng.choice(c)
+                if rng.random() < 0.3:
+                    n = below_falsy_parent()
                 f = rng.choice([f for f in U.child_fields(type(n).__name__) if f.shape in ("tuple", "list")])
                 cur = list(getattr(n, f.name))
                 d = rng.choice(cur) if cur and rng.random() < 0.5 else leaf()
@@ -197,6 +207,8 @@ def run_shard(ctx):
                 if not c or x is None:
                     return None
                 n = rng.choice(c)
+                if rng.random() < 0.3:
+                    n = below_falsy_parent()
                 if x.parent is n or id(x) in F.objs_of(n) or id(n) in F.objs_of(x):
                     return None
                 f = rng.choice([f for f in U.child_fields(type(n).__name__) if f.shape in ("tuple", "list")])
@@ -303,14 +315,44 @@ def run_shard(ctx):
                 others = sorted({type(x).__name__ for x in sub if type(x).__name__ != target and U.prop_fields(type(x).__name__)})
                 if others:
                     oc = rng.choice(others)
+                    if f"{P}Seq" in others and rng.random() < 0.6:
+                        oc = f"{P}Seq"
+                    touch = rng.random() < 0.6
 
                     def rewrite(self_, node):
                         R.counter += 1
+                        if touch:
+                            # the rule receives a detached copy: replacing children of that copy is harmless for the input tree
+                            for _fn, _ix, ch in struct_children(U, node):
+                                if hasattr(ch, "v"):
+                                    ch.replace(v=R.counter + 40000)
+                                    ctx.count("rule_replaces_children_of_its_copy")
                         g = ASTTransformVisitor.generic_visit(self_, node)
                         return g.replace(v=R.counter + 30000) if g is not None and hasattr(g, "v") else g
 
                     rules[f"visit_{oc}"] = rewrite
                 V = type("RV", (ASTTransformVisitor,), rules)
+                return ("transform", "nested", n, [], lambda: V().transform(n))
+            if kind == "transform_runtime_children":
+                # children held by a field that is a child field only at run time; the rule for their parent works on the
+                # children of the copy it receives; a later sibling's rule raises
+                seq = U.cls[f"{P}Seq"](elems=tuple(leaf() for _ in range(rng.randint(1, 3))), origin=NO)
+                last = U.cls[f"{P}Leaf2"](v=R.counter + 50000, origin=NO)
+                sibs = [seq, last] if where != "first" else [last, seq]
+                n = U.cls[f"{P}List"](items=tuple(sibs), origin=NO)
+                F.add(n)
+
+                def on_seq(self_, node):
+                    for ch in node.elems:
+                        R.counter += 1
+                        ch.replace(v=R.counter + 40000)
+                    return ASTTransformVisitor.generic_visit(self_, node)
+
+                def on_last(self_, node):
+                    raise RuntimeError("rule raised")
+
+                V = type("RV2", (ASTTransformVisitor,), {f"visit_{P}Seq": on_seq, f"visit_{P}Leaf2": on_last})
+                ctx.count("runtime_only_child_field_transform")
                 return ("transform", "nested", n, [], lambda: V().transform(n))
             if kind == "transformer_raises":
                 c = [n for n in F.handles if not n.detached and n.parent is None and len(struct_subtree(U, n)) >= 3]
